@@ -79,7 +79,8 @@ def decide(pid, P, tier, seed, replay, scratch, t0):
         env_extra["GORACE"] = "halt_on_error=1 exitcode=66"
     if P.get("cli"):
         env_extra["VERIF_TASK_BIN"] = engine.build_cli(scratch)
-    if P.get("cli_race") and tier == "thorough":
+    if P.get("cli_race") == "always" or (P.get("cli_race") and tier == "thorough"):
+        # the real CLI built with -race and without the verif tag (whose hook mutex orders events and can hide a race)
         env_extra["VERIF_TASK_BIN_RACE"] = engine.build_cli(scratch, race=True)
     env_extra["VERIF_SCRATCH"] = scratch.path("work")
     os.makedirs(env_extra["VERIF_SCRATCH"], exist_ok=True)
